@@ -29,9 +29,30 @@ func vpCountKey(text, key string) int {
 	return n
 }
 
+// vpLinesNameSettings: every CRLF-terminated line of text starts with a setting name — lower-case
+// letters and blanks, as every setting of the RDP builder is named — followed by a colon.
+func vpLinesNameSettings(text string) bool {
+	ok := true
+	start := 0
+	for i := 0; i+1 < len(text); i++ {
+		if text[i] == '\r' && text[i+1] == '\n' {
+			line := text[start:i]
+			j := 0
+			for j < len(line) && line[j] != ':' {
+				c := line[j]
+				ok = vpAnd(ok, vpOr(c == ' ', vpAnd(c >= 'a', c <= 'z')))
+				j++
+			}
+			ok = vpAnd(ok, j > 0 && j < len(line))
+			start = i + 2
+		}
+	}
+	return vpAnd(ok, start == len(text))
+}
+
 //vp:property C19 C12
 //vp:set budget 200 1200
-//vp:bounds one or two downloads in a row (same handler, different users) with the administrator's template configured or not. Template (when present): compression:i:0, audiomode:i:2, username:s:tpluser, domain:s:tpldomain, full address:s:elsewhere, gatewayhostname:s:elsewhere, gatewaycredentialssource:i:0, gatewayaccesstoken:s:old, plus symbolic presence of "alternate shell:s:sh". Users: "alice@corp" / "bob" / "carol@lab" (which one downloads first is symbolic); domain splitting and user-name suppression symbolic; host selection roundrobin over one host
+//vp:bounds one or two downloads in a row (same handler, different users) with the administrator's template configured or not. Template (when present): compression:i:0, audiomode:i:2, username:s:tpluser, domain:s:tpldomain, full address:s:elsewhere, gatewayhostname:s:elsewhere, gatewaycredentialssource:i:0, gatewayaccesstoken:s:old, plus symbolic presence of "alternate shell:s:sh". Users: "alice@corp" / "bob" / "carol@lab" / "jürgen" (which one downloads first is symbolic); domain splitting and user-name suppression symbolic; host selection roundrobin over one host
 //vp:assume as VP_C19_template (koanf / mapstructure models compared with the real libraries natively); fatih/structs answered from the static types
 //vp:reach served second
 func VP_C19_download_template() {
@@ -61,11 +82,11 @@ func VP_C19_download_template() {
 		RdpOpts:            RdpOpts{SplitUserDomain: split, NoUsername: noUser},
 		TemplateFile:       tpl,
 	}).NewHandler()
-	users := []string{"alice@corp", "bob", "carol@lab"}
+	users := []string{"alice@corp", "bob", "carol@lab", "j\xc3\xbcrgen"} // the last one with a letter outside ASCII
 	ndl := vpIntRange("downloads", 1, 2)
-	first := vpIntRange("first-user", 0, 2)
+	first := vpIntRange("first-user", 0, 3)
 	for k := 0; k < ndl; k++ {
-		user := users[(first+k)%3]
+		user := users[(first+k)%4]
 		id := identity.NewUser()
 		id.SetUserName(user)
 		id.SetAuthenticated(true)
@@ -84,6 +105,7 @@ func VP_C19_download_template() {
 		}
 		body := vpServedBody
 		vpObserveStr("body", body)
+		vpAssert(vpLinesNameSettings(body), "served-file-consists-of-crlf-terminated-lines-that-start-with-a-setting-name")
 		m, err := rdpparser.Parser().Unmarshal([]byte(body))
 		vpAssert(err == nil, "served-file-is-accepted-by-the-gateways-own-reader")
 		if err != nil {
@@ -199,6 +221,7 @@ func VP_C19_download_any_host() {
 	if vpBuilt == nil {
 		return
 	}
+	vpAssert(vpLinesNameSettings(body), "served-file-consists-of-crlf-terminated-lines-that-start-with-a-setting-name")
 	m, err := rdpparser.Parser().Unmarshal([]byte(body))
 	vpAssert(err == nil, "served-file-is-accepted-by-the-gateways-own-reader")
 	if err != nil {
